@@ -101,6 +101,10 @@ def judge_lockstep(a, b):
             return ("D8", "silent=True raised DDLParserError (t_error)")
         if b.get("raise") == a["raise"] and a["raise"] != "DDLParserError":
             return None     # the same exception from a semantic action / the output layer in both settings (C04 etc.)
+        if a["raise"] == "ValueError" and "does not exists in tables data" in a.get("msg", "") and b.get("raise") == "DDLParserError":
+            # an unparseable prefix followed by an ALTER / CREATE INDEX naming an unknown table: after PLY's recovery the ALTER is
+            # parsed and the output layer reports the unknown table (property C04's ValueError); the loud run stops at the prefix
+            return None
         return (None, "silent=True raised %s: %s" % (a["raise"], a.get("msg")))
     if "ok" not in a:
         return (None, "silent=True: %r" % (a,))
